@@ -31,6 +31,19 @@ ALIASES = {"perturbation_modes": "modes"}
 OPTIONS = ["threshold", "minimal_radius", "refine", "refine_args", "perturbation_modes"]
 
 
+def _extract_field_args(call):
+    """(fields, source, check_rank) of a pde extract_field call, whether passed positionally or by keyword"""
+    names = ["fields", "source", "check_rank"]
+    out = {}
+    for i, a in enumerate(call.args[:3]):
+        out[names[i]] = U(a)
+    for k in call.keywords:
+        if k.arg in names:
+            out[k.arg] = U(k.value)
+    return [out.get(n) for n in names]
+
+
+
 def stored_options(ctx, cls_q):
     """{attr: value text} for self.attr = <expr> in __init__"""
     m = ctx.model
@@ -77,7 +90,7 @@ def check_droplet_tracker(ctx: Ctx):
     # the field: extract_field(field, self.source, 0) → first positional argument
     a0 = bound.get(loc.params[0])
     ex = hv.expand(a0, c) if a0 is not None else None
-    oks = isinstance(ex, ast.Call) and (hv.callee(ex) or "").endswith("extract_field") and [U(a) for a in ex.args] == [h.params[1], "self.source", "0"]
+    oks = isinstance(ex, ast.Call) and (hv.callee(ex) or "").endswith("extract_field") and _extract_field_args(ex) == [h.params[1], "self.source", "0"]
     ctx.decide(oks, "FORWARD", f"{site}:source", (h, c), "the analysed field is extract_field(field, self.source, 0)",
                f"the analysed field is `{U(ex) if ex is not None else None}`, not extract_field(field, self.source, 0)")
     # PIPE: result appended with the solver time
@@ -269,7 +282,7 @@ def check_length_tracker(ctx: Ctx):
     ctx.decide(ok, "FORWARD", site + ":method", (h, c), "the stored method is passed as method= to get_length_scale",
                "the stored `method` is not forwarded unconditionally to get_length_scale")
     a0 = hv.expand(c.args[0], c) if c.args else None
-    oks = isinstance(a0, ast.Call) and (hv.callee(a0) or "").endswith("extract_field") and [U(a) for a in a0.args] == [h.params[1], "self.source", "0"]
+    oks = isinstance(a0, ast.Call) and (hv.callee(a0) or "").endswith("extract_field") and _extract_field_args(a0) == [h.params[1], "self.source", "0"]
     ctx.decide(oks, "FORWARD", site + ":source", (h, c), "the analysed field is extract_field(field, self.source, 0)", "the analysed field is not extract_field(field, self.source, 0)")
     extra = [k.arg for k in c.keywords if k.arg != "method"]
     ctx.decide(not extra, "FORWARD", site + ":extra", (h, c), "no further setting is fixed in the tracker", f"extra settings {extra}")
